@@ -9,6 +9,7 @@ git -C /repo worktree add -q --detach $WT HEAD || exit 3
 DIRS="$@"; [ -z "$DIRS" ] && DIRS=$(ls -d seeded/*/ | sort)
 for d in $DIRS; do
   d=${d%/}; name=$(basename $d); ID=${name%%-*}
+  if grep -q '"obsolete"' $ROOT/$d/meta.json 2>/dev/null; then echo "$name: OBSOLETE (neutralised by a later fix, see meta.json)"; continue; fi
   git -C $WT checkout -q -- . ; git -C $WT clean -fdq
   if ! git -C $WT apply $ROOT/$d/patch.diff 2>/dev/null; then echo "$name: PATCH DOES NOT APPLY"; continue; fi
   t0=$(date +%s)
